@@ -123,7 +123,7 @@ def run(repo, rep, tier):
     # (C09 owns the element details)
     from . import c09 as _c09
     L.borrow(repo, rep, "R01.8", "C09", _c09.element_details,
-             ("decode-which", "attrs-alias-first"))
+             ("decode-which", "attrs-alias-first", "multipart-complete"))
     ds = repo.cls("chameleon.utils.DebuggingOutputStream").methods["append"]
     rs = [n for n in ast.walk(ds.node) if isinstance(n, ast.Raise)]
     okd = bool(rs)
@@ -148,13 +148,14 @@ def run(repo, rep, tier):
     sa = repo.func("chameleon.zpt.program.MacroProgram."
                    "_create_static_attributes")
     sk = [n for n in ast.walk(sa.node) if isinstance(n, ast.If)
-          and src(L._CanonIf._pos(n.test)[0]).replace(" ", "") ==
-          "nameisNone"]
+          and src(L._CanonIf._pos(n.test)[0]).replace(" ", "") in
+          ("nameisNone", "name==None", "Noneisname", "None==name")]
     rep.check(bool(sk) and all(any(isinstance(x, ast.Continue)
                                    for x in n.body) for n in sk), "R01.5",
               sa.qualname, "the 'attrs' dictionary holds the named static "
               "attributes only (a nameless attribute-dictionary entry is "
               "skipped)", construct="attrs-named-only", where=L.where(sa))
+    L.whitelist_rule(repo, rep, "R01.8", ("chameleon.tal",))
     L.state_rule(repo, rep)
 
 
